@@ -65,10 +65,11 @@ class World(object):
 class SegmentWorld(World):
     kind = 'segment'
 
-    def __init__(self, version, level, rng, seg=None):
+    def __init__(self, version, level, rng, seg=None, ec=None):
         World.__init__(self, version, level, rng)
         from hl7apy import core
         self.core = core
+        self.ec = ec            # custom delimiters: the segments then live inside Z messages declaring them
         segs = tables.segments(version)
         cands = [s for s in SEG_CANDIDATES if segs.get(s)]
         for s in ([seg] if seg else rng.sample(cands, len(cands))):
@@ -84,14 +85,25 @@ class SegmentWorld(World):
         allrows = segs[self.seg]
         self.long = {r.name: r.long_name for r in self.rows.values() if _long_ok(core.Segment, r.long_name, allrows)}
         self.names = sorted(self.rows, key=lambda n: self.rows[n].num)
+        self.hosts = {}
         for k in ('A', 'B'):
             self.els[k] = core.Segment(self.seg, version=version, validation_level=level)
             self.model[k] = {n: [] for n in self.names}
+            if ec is not None:
+                host = core.Message('ZA%s_Z01' % k, version=version, validation_level=level, encoding_chars=dict(ec))
+                host.msh.msh_7 = '20200101'
+                host.add(self.els[k])
+                self.hosts[k] = host
 
     def describe(self):
         d = World.describe(self)
         d['segment'] = self.seg
+        if self.ec is not None:
+            d['ec'] = {k: v for k, v in self.ec.items() if k not in ('SEGMENT', 'GROUP')}
         return d
+
+    def chars(self):
+        return self.ec or er7ref.STD
 
     def maxcard(self, name):
         return self.rows[name].card[1]
@@ -112,7 +124,7 @@ class SegmentWorld(World):
         if row.kind == 'sequence' and self.rng.random() < 0.3:
             comps = tables.components(self.version, row.datatype)
             if len(comps) > 1 and comps[1].kind == 'leaf' and comps[1].datatype in TEXTUAL and comps[1].card[1] != 0:
-                return v + '^w%d' % self.n
+                return v + self.chars()['COMPONENT'] + 'w%d' % self.n
         return v
 
     def encode_model(self, el):
@@ -121,8 +133,8 @@ class SegmentWorld(World):
         parts = [self.seg] + [''] * top
         for n, reps in m.items():
             if reps:
-                parts[self.rows[n].num] = '~'.join(reps)
-        return '|'.join(parts)
+                parts[self.rows[n].num] = self.chars()['REPETITION'].join(reps)
+        return self.chars()['FIELD'].join(parts)
 
     def encode_real(self, el):
         return self.els[el].to_er7()
@@ -140,11 +152,16 @@ class SegmentWorld(World):
             kinds += ['add_new', 'add_helper', 'setidx_append']
         if reps:
             kinds += ['setidx', 'setidx', 'del', 'delidx', 'remove']
+        if len(reps) >= 2 and allow_copy_elem:
+            kinds += ['setidx_own']
         if self.model[other][name]:
             kinds += ['copy']
             if allow_copy_elem:
                 kinds += ['copy_elem']
         k = rng.choice(kinds)
+        if k == 'setidx_own':
+            i, j = rng.sample(range(len(reps)), 2)
+            return ['setidx_own', el, name, i, j]
         if k == 'set':
             return ['set', el, name, self.spelling(name), self.value_for(name)]
         if k == 'setidx':
@@ -170,9 +187,15 @@ class SegmentWorld(World):
             self.guard(lambda: getattr(el, op[2]).__setitem__(op[3], op[4]))
         elif k == 'add_new':
             f = core.Field(op[2], version=self.version, validation_level=self.level)
-            self.guard(lambda: setattr(f, 'value', op[3]))
-            self.detached.append(f)
-            self.guard(lambda: el.add(f))
+            if self.ec is not None:
+                # a parentless field would split the text with the default delimiters: attach it first
+                self.detached.append(f)
+                self.guard(lambda: el.add(f))
+                self.guard(lambda: setattr(f, 'value', op[3]))
+            else:
+                self.guard(lambda: setattr(f, 'value', op[3]))
+                self.detached.append(f)
+                self.guard(lambda: el.add(f))
         elif k == 'add_helper':
             f = self.guard(lambda: el.add_field(op[2]))
             self.guard(lambda: setattr(f, 'value', op[3]))
@@ -190,6 +213,9 @@ class SegmentWorld(World):
         elif k == 'copy_elem':
             sp = op[5] if len(op) > 5 else op[2].lower()
             self.guard(lambda: setattr(el, sp, getattr(self.els[op[3]], op[2].lower())[op[4]]))
+        elif k == 'setidx_own':
+            # a repetition assigned over another repetition of the same parent: copied by value
+            self.guard(lambda: getattr(el, op[2]).__setitem__(op[3], getattr(el, op[2])[op[4]]))
         else:
             raise KeyError(k)
 
@@ -197,6 +223,9 @@ class SegmentWorld(World):
         k = op[0]
         m = self.model[op[1]]
         name = op[2]
+        if k == 'setidx_own':
+            m[name][op[3]] = m[name][op[4]]
+            return
         if k == 'set':
             if m[name]:
                 m[name][0] = op[4]
